@@ -497,7 +497,7 @@ Theorem C02_hoisting_keeps_declarations_coherent_partial :
 Proof. exact hoisting_keeps_declarations_coherent. Qed.
 Print Assumptions C02_hoisting_keeps_declarations_coherent_partial.
 
-Theorem C02_stored_values_within_final_labels_partial :
+Theorem C02_stored_values_within_declared_labels_partial :
   forall (S : Type) call C F A (Inv : S -> Prop),
     (forall d sp G f sg, Inv (fst sp) ->
        Inv (fst (fst (call d sp G f sg))) /\ snd (call d sp G f sg) = resolve_call F A f sg) ->
@@ -506,8 +506,8 @@ Theorem C02_stored_values_within_final_labels_partial :
       run_stmt S call C s st x = Some (s1, st1) ->
       env_lab L rho -> exec_stmt orc rho x = Ok (orc1, rho1, tr, ret) ->
       env_lab L rho1 /\ Forall (ev_ok L (a_rets (st_acc st1))) tr.
-Proof. exact stored_values_within_final_labels. Qed.
-Print Assumptions C02_stored_values_within_final_labels_partial.
+Proof. exact stored_values_within_declared_labels. Qed.
+Print Assumptions C02_stored_values_within_declared_labels_partial.
 
 (* ---------------------------------------------------------------- function bodies, every shape
    fn_guard F A C cur params sg body = the same guard for the body parsed for call signature sg (declared labels: the labels
